@@ -6,8 +6,8 @@ DRIVERS = ['pv_C28']
 THEOREMS = ['ParsecVerif.C28.C28_inv', 'ParsecVerif.C28.C28_walk', 'ParsecVerif.C28.C28_in_zone_aligned',
             'ParsecVerif.C28.C28_disjoint', 'ParsecVerif.C28.C28_fails_only_if_no_run', 'ParsecVerif.C28.C28_best_fit',
             'ParsecVerif.C28.C28_free_merges', 'ParsecVerif.C28.C28_in_use', 'ParsecVerif.C28.C28_free_accepted',
-            'ParsecVerif.C28.C28_refused_free_noop', 'ParsecVerif.C28.C28_bytes_partial',
-            'ParsecVerif.C28.C28_truncated_request_succeeds']
+            'ParsecVerif.C28.C28_refused_free_noop', 'ParsecVerif.C28.C28_bytes',
+            'ParsecVerif.C28.C28_truncated_request_succeeds_buggy', 'ParsecVerif.C28.C28_huge_request_null']
 IMPL = 'parsec/utils/zone_malloc.c'
 ENGINE = 'lean-seq'
 LEVEL = 'proof'
@@ -20,17 +20,14 @@ LEVEL_TEXT = ('Lean 4 theorems for every zone size, every unit size and every se
               'prev/next merge with reuse_fl) including stale interior table entries; it is tied to the current source on every run: the real allocator on a host buffer under ASan/UBSan, '
               'every returned offset, zone_in_use, the walked segment table and the in-order free lists compared line by line with the compiled Lean model, on an exhaustive breadth-first '
               'exploration of all reachable states/transitions of small zones and on random histories; an independent ledger-based oracle of the property statement is evaluated on the '
-              'implementation outputs.  One genuine defect (int truncation of the unit count for requests of 2^31 units or more) is proved as a theorem about the model and replayed on the code.')
-LEVEL_NOTE = ('The byte-level theorems carry the hypothesis that the request is below 2^31 units (C28_bytes_partial); for larger requests the full statement is false of the code '
-              '(C28_truncated_request_succeeds, known finding).  The rb-tree is abstracted as a sorted association list (find / find_or_larger / insert / remove / update_node have their '
+              'implementation outputs.  The byte-level statement (C28_bytes) holds for every request size since the repair 6e3ff3b of a genuine defect found by this check (int truncation of the unit count); the pre-repair computation is kept as reqUnitsBuggy with its witness theorem.')
+LEVEL_NOTE = ('The rb-tree is abstracted as a sorted association list (find / find_or_larger / insert / remove / update_node have their '
               'sorted-map meaning; that is property C36); the pool of retired tree nodes (rbtree_free_list) is not modelled.  Calls are atomic (each runs under the zone lock); '
               'concurrent use is covered only through that lock.  Frees of addresses that are neither live, nor outside the table, nor marked EMPTY are outside the API precondition and are not issued. '
               'Trusted: Lean kernel, propext/Classical.choice/Quot.sound, the harness, differential testing as tie.')
 TECHNIQUE = 'Lean 4 proof (refinement of the table + free lists to a list of runs, inductive invariant over all call histories) on a hand-written model, tied by differential correspondence with the real allocator'
 ASSUMPTIONS = ['calls are atomic w.r.t. each other (zone lock)', 'zone_free is called with live allocation bases or with addresses the code itself refuses',
-               'max_segment >= 1, unit_size >= 1; requests whose int unit count is negative are not issued']
-
-TRUNC_KEY = 'unit-count-truncation: init 4 1 ; malloc 4294967297'
+               'max_segment >= 1, unit_size >= 1, size < 2^64']
 
 
 # ---------------------------------------------------------------- the property statement as an executable oracle
@@ -71,16 +68,13 @@ def oracle(ops, impl):
                     fails.append(('fail-with-room', '%s: returned NULL although a free run of %d units exists (free runs %s)' % (o, need, gs)))
             else:
                 off = int(rw[0])
-                if need >= 2 ** 31:
-                    fails.append(('trunc', '%s: request of %d units (>= 2^31, zone has %d) succeeded with offset %d' % (o, need, N, off)))
-                    need = ((size + U - 1) % 2 ** 64 // U) % 2 ** 32   # what the code reserved; keep the ledger usable
-                else:
-                    if size == 0:
-                        fails.append(('zero', '%s: zero-size request returned a block' % o))
-                    if off % U != 0:
-                        fails.append(('align', '%s: offset %d not a multiple of the unit %d' % (o, off, U)))
-                    if off + size > N * U:
-                        fails.append(('outside', '%s: block [%d,%d) not inside the zone of %d bytes' % (o, off, off + size, N * U)))
+                if size == 0:
+                    fails.append(('zero', '%s: zero-size request returned a block' % o))
+                if off % U != 0:
+                    fails.append(('align', '%s: offset %d not a multiple of the unit %d' % (o, off, U)))
+                if off + size > N * U:
+                    fails.append(('outside', '%s: block [%d,%d) of %d units not inside the zone of %d bytes' % (o, off, off + size, need, N * U)))
+                    need = min(need, N)     # keep the ledger usable
                 a = off // U
                 for b, (l, _) in live.items():
                     if a < b + l and b < a + need:
@@ -171,10 +165,10 @@ def gen_case(rng, length, big):
             elif q < 99:
                 need = 2 ** 32 * rng.range(1, 3) + rng.range(1, 3)    # int truncation of the unit count
             else:
-                need = 2 ** 31 - rng.range(1, 2) if u > 1 else rng.range(1, maxneed)
+                need = rng.choice([2 ** 31 - 1, 2 ** 31, 2 ** 31 + 1, 2 ** 32 - 1, 2 ** 32, (2 ** 64 - 1) // u])   # once negative as an int
             size = need * u - (rng.below(u) if need > 0 else 0)
             if size >= 2 ** 64:
-                size = u
+                size = 2 ** 64 - 1 - rng.below(u)
             ops.append('malloc %d' % size)
         elif r < 950:
             ops.append('freei %d' % rng.below(12))
@@ -209,18 +203,15 @@ def judge(ctx, res, exe, env, r, hist, shrink=True, fast=None):
                                'case': r['ops'][:len(r['impl']) + 1]})
         return False
     fails = oracle(r['ops'], r['impl'])
-    other = [f for f in fails if f[0] != 'trunc']
-    if any(f[0] == 'trunc' for f in fails) and not any(v.get('key') == TRUNC_KEY for v in res.violations):
-        res.violations.append({'key': TRUNC_KEY, 'what': [f for f in fails if f[0] == 'trunc'][0][1],
-                               'case': ['init 4 1', 'malloc 4294967297'], 'seen_in': r['ops'][:2]})
+    other = fails
     fast = fast or exe      # shrinking runs the un-instrumented build: process start-up of the ASan build is ~1 s
     if other:
         def bad(ops):
             rr = pv.run_script(fast, 'pv_C28', [ops], env=env, use_driver=False, timeout=60)[0][0]
-            return rr['crashed'] or any(f[0] != 'trunc' for f in oracle(ops, rr['impl']))
+            return rr['crashed'] or bool(oracle(ops, rr['impl']))
         small = pv.ddmin(r['ops'], bad, max_tests=200) if shrink else r['ops']
         rr = pv.run_script(exe, 'pv_C28', [small], env=env, use_driver=False, timeout=60)[0][0]
-        sf = [f for f in oracle(small, rr['impl']) if f[0] != 'trunc'] or other
+        sf = oracle(small, rr['impl']) or other
         res.violations.append({'key': ' ; '.join(small), 'what': sf[0][1], 'case': small, 'all_failures': [f[1] for f in sf[:5]]})
     if ctx.driver_ok and r['impl'] != r['model']:
         small = pv.ddmin(r['ops'], lambda ops: pv.case_disagrees(fast, 'pv_C28', ops, env=env), max_tests=120) if shrink else r['ops']
